@@ -230,3 +230,28 @@ func BigTrees(emit func(*N)) {
 		emit(st(U, append([]*N{sent()}, nested...)...))
 	}
 }
+
+// BinaryTexts: text strings whose content only the binary encoding can carry or that exercise byte-versus-character
+// counting: multi-byte UTF-8 of every sequence length, invalid UTF-8 (lone continuation / lead bytes, truncated sequences,
+// Latin-1, overlong forms, surrogates, 0xFF), embedded NUL. The wire length is the number of BYTES.
+func BinaryTexts() [][]byte {
+	return [][]byte{
+		[]byte("caf\u00e9"), []byte("\u20ac"), []byte("\U0001D11E"), []byte("a\u00e9\u20ac\U0001D11Ez"), // 2-, 3-, 4-byte sequences
+		{0xFF}, {0x80}, {0xC3}, {0xE2, 0x82}, {0xF0, 0x9D, 0x84}, []byte("caf\xe9"), []byte("caf\xe9 au lait"),
+		{0xC0, 0xAF}, {0xED, 0xA0, 0x80}, {0xF4, 0x90, 0x80, 0x80}, {'a', 0, 'b'}, {0, 0, 0, 0, 0, 0, 0, 0},
+		[]byte("1234567\xff"), []byte("12345678\xff"), []byte("\xff1234567"), []byte("\xfe\xff\x00a"),
+	}
+}
+
+// BinaryTextTrees wraps every BinaryTexts value as a leaf alone, between siblings and nested.
+func BinaryTextTrees(emit func(*N)) {
+	const T, U = 0x420008, 0x420069
+	sent := func() *N { return &N{Tag: 0x42000A, Type: refttlv.TTextString, S: []byte("x")} }
+	for _, b := range BinaryTexts() {
+		l := &N{Tag: T, Type: refttlv.TTextString, S: b}
+		emit(l)
+		emit(st(U, l))
+		emit(st(U, sent(), l, sent()))
+		emit(st(U, st(T, l, sent()), sent()))
+	}
+}
